@@ -178,10 +178,24 @@ class C01(Base):
             maps = maps_for(case, ex, ctx)
             parsed = parse_outputs(out)
             probes_single(rep, out, parsed)
+            rows = rows_by_file(out)
             for n, p in parsed.items():
-                for rec in p["records"]:
+                frows = rows.get(n) or []
+                for ri, rec in enumerate(p["records"]):
                     rep.clauses["record"] += 1
-                    rep.add(O.c01_record(rec, maps, n), k)
+                    vs = O.c01_record(rec, maps, n)
+                    if vs:
+                        row = frows[ri] if ri < len(frows) and O.row_pairs(frows[ri]) == rec["pairs"] else None
+                        if n == "out.xmap" and ex["mode"] in ("joined", "all"):
+                            kind = "joined"
+                        elif ex["mode"] == "best":
+                            kind = "best"
+                        else:
+                            kind = "second-pass" if rec.get("AlignedRest") == "True" else "first-pass"
+                        for v in vs:
+                            d = O.c01_diagnose(row, v["clause"], rec.get("Orientation")) if row is not None else "no-row"
+                            v["signature"] = f"{kind}|{d}|sj={'0' if float(case['config'].get('-sj', 1)) == 0 else 'pos'}"
+                    rep.add(vs, k)
             for t in out.get("tapped", []):
                 for c in t["cands"]:
                     rep.clauses["candidate"] += 1
@@ -759,7 +773,17 @@ class C08(Base):
                             nseg.append(sum(1 for sg in row["segs"] if sg["pos"]))
                             for sg in row["segs"][1:]:
                                 nonfirst.update((p_[1], p_[2]) for p_ in sg["pos"] if p_[0] == "P")
-                        cause = "non-first-segment-dropped" if missing and all(m_ in nonfirst for m_ in missing) else "other"
+                        lo = max(a["pairs"][0][0], b["pairs"][0][0])
+                        hi = min(a["pairs"][-1][0], b["pairs"][-1][0])
+                        cats = set()
+                        for m_ in missing:
+                            if m_ in nonfirst:
+                                cats.add("non-first-segment-dropped")
+                            elif lo <= m_[0] <= hi:
+                                cats.add("cut-inside-the-overlap")
+                            else:
+                                cats.add("unexplained")
+                        cause = "+".join(sorted(cats)) or "unexplained"
                         rep.add([O.V("exact-union", f"query {q}: union of the parts is a valid matching of {len(union)} "
                                                     f"pairs but the joined record has {len(jr['pairs'])}; missing "
                                                     f"{missing[:6]} (parts have {nseg} non-empty segments)",
